@@ -170,7 +170,14 @@ func (c LongCodec) Omit(p unsafe.Pointer) bool {
 
 func (c LongCodec) Write(w *avro.WriteBuf, p unsafe.Pointer) {
 	t := *(*time.Time)(p)
-	l := t.UnixMicro()
+	// the unit Read multiplies back by c.mult
+	l := t.UnixNano()
+	switch c.mult {
+	case 1000:
+		l = t.UnixMicro()
+	case 1e6:
+		l = t.UnixMilli()
+	}
 
 	c.Int64Codec.Write(w, unsafe.Pointer(&l))
 }
